@@ -390,6 +390,9 @@ func genC09(r *hx.R, tier, scratch string) (*hx.Suite, error) {
 	for i := 0; i < nStruct; i++ {
 		b := &builder05{r: r, on: vectors[i%len(vectors)], m: 1 + r.Intn(3), vary: true}
 		sp := b.spec(1 + r.Intn(3))
+		if i%3 == 1 {
+			sp.Version = "v" + sp.Version // the other legal spelling of a released version
+		}
 		addSpec09(s, scratch, &idx, "structure", sp, "pairwise optional fields")
 	}
 	// --- numeric extremes
